@@ -131,7 +131,8 @@ class VReader:
         if columns is None:
             return df
         if isinstance(columns, str):
-            columns = [columns]
+            # the real reader classes are @typechecked: columns must be list[str] | None
+            raise TypeError("argument \"columns\" (str) did not match any element in the union: list[str] | None (typeguard)")
         for c in columns:
             if c not in df._c:
                 if self.parquet:
@@ -243,6 +244,8 @@ def read_csv(file_name, sep="\t", index_col=False, nrows=None, usecols=None, chu
     the order of usecols; a missing usecols entry is a ValueError; chunksize=c yields
     consecutive chunks of exactly c rows (the last may be shorter) whose index continues."""
     df = _table(file_name)
+    if isinstance(usecols, str):
+        raise ValueError("'usecols' must either be list-like of all strings, all unicode, all integers or a callable.")
     if usecols is not None:
         usecols = list(usecols)
         for c in usecols:
